@@ -45,6 +45,29 @@ def region_signature(body, eb, region_blocks, drop):
     return sorted(sig)
 
 
+def ring_buffer_size(ctx, p, RULE="C07-R3"):
+    # the branch of get() is selected by `ring_buffer.len() > 0` (R3): the buffer has exactly as many
+    # taps as the voice's low-pass stream - nlpf = 0 gives an empty buffer and the plain branch
+    # (seed C01k: `size.max(1)` sent two-stream voices into the mixing branch, which indexes the
+    # empty low-pass row)
+    rn = p.body("vocoder::excitation::RingBuffer::<T>::new")
+    en = p.body(EX + "new")
+    if rn is not None and en is not None:
+        r_ = ExprBuilder(rn).local(0)
+        vals_ = dict(zip(r_[3], r_[2])) if r_[0] == "agg" and r_[3] else {}
+        buf_ = vals_.get("buffer")
+        okn_ = buf_ is not None and buf_[0] == "call" and buf_[1].endswith("from_elem") and len(buf_[2]) == 2 and buf_[2][1][0] == "arg" and buf_[2][1][1] == 1
+        e_ = ExprBuilder(en).local(0)
+        ev_ = dict(zip(e_[3], e_[2])) if e_[0] == "agg" and e_[3] else {}
+        rbv = ev_.get("ring_buffer")
+        oke_ = rbv is not None and rbv[0] == "call" and rbv[1].endswith("RingBuffer::<T>::new") and len(rbv[2]) == 1 and rbv[2][0][0] == "arg" and rbv[2][0][1] == 1
+        if okn_ and oke_:
+            ctx.ok(RULE, "the ring buffer has exactly nlpf elements (RingBuffer::new(size) = vec![default; size], Excitation::new(nlpf) passes nlpf): empty for a voice without a low-pass stream", rn.loc())
+        else:
+            ctx.fail(RULE, rn.path if not okn_ else en.path, "ring buffer size", "the excitation's ring buffer does not have exactly nlpf elements (%s): the branch of Excitation::get is selected by its length, and a non-empty buffer for nlpf = 0 sends a voice without a low-pass stream into the mixing branch" % (show(buf_)[:80] if not okn_ else show(rbv)[:80]), (rn if not okn_ else en).loc())
+
+
+
 def run(ctx):
     ctx.rule("C07-R1", "MIN_LF0 = ln 20, MAX_LF0 = ln 20000; period p = rate / exp(clamp(lf0, MIN_LF0, MAX_LF0)); no-data => p = 0")
     ctx.rule("C07-R2", "accumulator scheme in Excitation::get: counter += 1; under counter >= pitch: counter -= pitch and pulse = sqrt(pitch), else pulse = 0; then pitch += inc. start: inc = (pitch - current)/fperiod when both non-zero, else inc = 0, current = counter = pitch. end: current = pitch")
@@ -400,6 +423,8 @@ def run(ctx):
             ctx.ok("C07-R4", "RingBuffer::get_mut_with_offset(i) = buffer[(index + i) % len]", rb.loc())
         else:
             ctx.fail("C07-R4", rb.path, "offset", "get_mut_with_offset returns %s" % r, rb.loc())
+
+    ring_buffer_size(ctx, p)
 
     # ---- R5
     if vs is not None:
